@@ -1,6 +1,8 @@
 ------------------------------ MODULE XlCompare ------------------------------
 (* C10: comparison of two operands of one kind, and the blank clauses.            *)
 (* Values:  [k |-> "num", n, d]  exact rational, d > 0                            *)
+(*          [k |-> "numup", n, d] the double just above the double nearest to n/d  *)
+(*                               (two numbers that agree in their first 15 digits) *)
 (*          [k |-> "text", c]    sequence of character codes                      *)
 (*          [k |-> "date", d, t] date-time: day serial d, t seconds after midnight *)
 (*          [k |-> "day", d]     a pure date (no time of day)                     *)
@@ -26,15 +28,20 @@ Norm(v) == IF v.k = "day" THEN DateV(v.d, 0) ELSE v
 BlankVs(b) ==   \* Cmp3(blank, b)
   CASE b.k = "blank" -> 0
     [] b.k = "num"   -> IF b.n = 0 THEN 0 ELSE IF b.n > 0 THEN -1 ELSE LAWS
+    [] b.k = "numup" -> IF b.n >= 0 THEN -1 ELSE LAWS
     [] b.k = "text"  -> IF b.c = <<>> THEN 0 ELSE -1
     [] b.k = "date"  -> -1
     [] b.k = "bool"  -> IF b.b THEN OOS ELSE 0
     [] OTHER -> OOS
 Flip(c) == IF c \in {-1, 0, 1} THEN -c ELSE c
+IsNum(v) == v.k \in {"num", "numup"}
 Cmp3(x, y) == LET a == Norm(x) b == Norm(y) IN
   CASE a.k = "blank" -> BlankVs(b)
     [] b.k = "blank" -> Flip(BlankVs(a))
-    [] a.k = "num" /\ b.k = "num" -> Sign(a.n * b.d - b.n * a.d)
+    [] IsNum(a) /\ IsNum(b) -> LET r == Sign(a.n * b.d - b.n * a.d) IN
+                                 IF a.k = b.k THEN r                       \* both exact, or both one step up
+                                 ELSE IF a.k = "num" THEN (IF r <= 0 THEN -1 ELSE 1)      \* x <= y < up(y)
+                                 ELSE (IF r >= 0 THEN 1 ELSE -1)
     [] a.k = "date" /\ b.k = "date" -> IF a.d # b.d THEN Sign(a.d - b.d) ELSE Sign(a.t - b.t)
     [] a.k = "text" /\ b.k = "text" -> LAWS
     [] OTHER -> OOS
